@@ -15,6 +15,18 @@ pub struct SourceFileAst {
     pub ast: ast::File,
 }
 
+/// The Go text names a foreign package by (a spelling of) its last path segment or of its whole
+/// path: `example.com/t1` is imported as `t1`.
+pub fn go_package_spellings(package_path: &str) -> [String; 2] {
+    let spell = |text: &str| -> String {
+        text.chars()
+            .map(|ch| if ch.is_ascii_alphanumeric() { ch } else { '_' })
+            .collect()
+    };
+    let last = package_path.rsplit('/').next().unwrap_or(package_path);
+    [spell(last), spell(package_path)]
+}
+
 /// The names the files give to their items (functions, types, variants, traits): what generated
 /// names have to stay apart from.
 pub fn declared_item_names(files: &[SourceFileAst]) -> Vec<String> {
@@ -29,7 +41,10 @@ pub fn declared_item_names(files: &[SourceFileAst]) -> Vec<String> {
                     names.extend(d.variants.iter().map(|(variant, _)| variant.0.clone()));
                 }
                 ast::Item::TraitDef(d) => names.push(d.name.0.clone()),
-                ast::Item::ExternGo(e) => names.push(e.goml_name.0.clone()),
+                ast::Item::ExternGo(e) => {
+                    names.push(e.goml_name.0.clone());
+                    names.extend(go_package_spellings(&e.package_path));
+                }
                 ast::Item::ExternType(e) => names.push(e.goml_name.0.clone()),
                 ast::Item::ExternBuiltin(e) => names.push(e.name.0.clone()),
                 ast::Item::ImplBlock(_) => {}
